@@ -17,7 +17,8 @@
   is a parameter `fp` of `parseKeys`. The key table `kid ↦ key bytes` (JWTHelper.publicKeys, built by
   vkuth.ParseVkuthKeys) IS modelled: the code verifies under the key the table returns for the token's kid.
 
-  Strings are byte lists (`strings.HasPrefix` is `List.isPrefixOf`). Times are milliseconds since the epoch;
+  Strings are byte lists (`strings.HasPrefix` is `List.isPrefixOf`). Times are milliseconds since the epoch as
+  unbounded `Int` (time.Time comparisons do not overflow; negative = before 1970);
   golang-jwt's NumericDate keeps whole seconds (`jwt.TimePrecision = time.Second`), modelled by `truncSec`.
   Go maps (`Bits`, `bitViewPrefix`, …) are lists used only through membership / `any`, so iteration order and
   duplicates are irrelevant. `Weight` (float64) is modelled in quarters (`weightQ = 4·Weight`, exact domain).
@@ -56,9 +57,9 @@ structure Token where
   sigValid : List Key
   iss : Str            -- "" when absent
   user : Str           -- "" when absent
-  exp : Option Nat     -- ms
-  iat : Option Nat
-  nbf : Option Nat
+  exp : Option Int     -- ms since the epoch; unbounded (negative = before 1970)
+  iat : Option Int
+  nbf : Option Int
   service : Bool
   bits : List Str
 deriving DecidableEq, Repr
@@ -83,7 +84,7 @@ inductive Verdict where
   | panic                -- nil dereference in Claims.Valid (no `exp`)
 deriving DecidableEq, Repr
 
-def window : Nat := C30.timeWindowMs
+def window : Int := C30.timeWindowMs
 
 /-- `GetSigningMethod(alg) != nil` -/
 def algKnown (s : Str) : Bool := C30.knownAlgs.contains s
@@ -121,19 +122,20 @@ def kidKey (cfg : Cfg) : HV → Option Key
   | .str k => tableGet cfg.keys k
   | _ => none
 
-/-- NumericDate keeps whole seconds -/
-def truncSec (ms : Nat) : Nat := ms / 1000 * 1000
+/-- NumericDate keeps whole seconds: time.Truncate rounds DOWN (also before 1970); `/` on Int is floor division here -/
+def truncSec (ms : Int) : Int := ms / 1000 * 1000
 
-/-- `VerifyExpiresAt(now - 5s, true)` for a present `exp`: `now - 5s < exp` -/
-def expOk (now exp : Nat) : Bool := decide (now < truncSec exp + window)
+/-- `VerifyExpiresAt(now - 5s, true)` for a present `exp`: `now - 5s < exp`, a comparison of time.Time values, i.e. on
+    unbounded integers (no Duration arithmetic is involved in the decision) -/
+def expOk (now exp : Int) : Bool := decide (now < truncSec exp + window)
 
 /-- `VerifyIssuedAt(now + 5s, true)`: required, `now + 5s ≥ iat` -/
-def iatOk (now : Nat) : Option Nat → Bool
+def iatOk (now : Int) : Option Int → Bool
   | none => false
   | some iat => decide (truncSec iat ≤ now + window)
 
 /-- `VerifyNotBefore(now, false)`: optional, no tolerance -/
-def nbfOk (now : Nat) : Option Nat → Bool
+def nbfOk (now : Int) : Option Int → Bool
   | none => true
   | some nbf => decide (truncSec nbf ≤ now)
 
@@ -141,22 +143,22 @@ def issOk (t : Token) : Bool := t.iss == C30.issuer
 def userOk (t : Token) : Bool := !t.user.isEmpty
 
 /-- error bits accumulated by `Claims.Valid` (all five tests always run) -/
-def claimsMask (now exp : Nat) (t : Token) : Nat :=
+def claimsMask (now exp : Int) (t : Token) : Nat :=
   (if expOk now exp then 0 else C30.errExpired) +
   (if iatOk now t.iat then 0 else C30.errIssuedAt) +
   (if nbfOk now t.nbf then 0 else C30.errNotValidYet) +
   (if issOk t && userOk t then 0 else C30.errClaimsInvalid)
 
-def claimsVerdict (now : Nat) (t : Token) : Verdict :=
+def claimsVerdict (now : Int) (t : Token) : Verdict :=
   match t.exp with
   | none => .panic       -- VerifyExpiresAt(…, required) is false and the message dereferences c.ExpiresAt
   | some exp => if claimsMask now exp t = 0 then .accept else .err (claimsMask now exp t)
 
 /-- `token.Method.Verify(signingString, signature, key)` with the key returned by the Keyfunc -/
-def sigVerdict (now : Nat) (t : Token) (k : Key) : Verdict :=
+def sigVerdict (now : Int) (t : Token) (k : Key) : Verdict :=
   if t.sigValid.contains k then claimsVerdict now t else .err C30.errSignatureInvalid
 
-def keyVerdict (cfg : Cfg) (now : Nat) (t : Token) : Verdict :=
+def keyVerdict (cfg : Cfg) (now : Int) (t : Token) : Verdict :=
   if kindOk t.kind then
     match kidKey cfg t.kid with
     | some k => sigVerdict now t k
@@ -164,7 +166,7 @@ def keyVerdict (cfg : Cfg) (now : Nat) (t : Token) : Verdict :=
   else .err C30.errUnverifiable
 
 /-- jwt.ParseWithClaims on a token whose three segments decoded -/
-def verify (cfg : Cfg) (now : Nat) (t : Token) : Verdict :=
+def verify (cfg : Cfg) (now : Int) (t : Token) : Verdict :=
   match algCheck t.alg with
   | some m => .err m
   | none => keyVerdict cfg now t
@@ -269,7 +271,7 @@ def ofVerdict (cfg : Cfg) (t : Token) : Verdict → Res
   | .panic => .panic
 
 /-- api.parseAccessToken -/
-def parseAccessToken (cfg : Cfg) (now : Nat) (inp : Input) : Res :=
+def parseAccessToken (cfg : Cfg) (now : Int) (inp : Input) : Res :=
   if cfg.localMode || cfg.insecure then .ok (insecureAI cfg)
   else match inp with
     | .empty => .err 0
